@@ -162,6 +162,7 @@ class UnitRegistry:
             tex_repr = r"\rm{" + symbol.replace("_", r"\ ") + "}"
 
         # Add to lut
+        self._forget_derived(symbol)
         self.lut[symbol] = (base_value, dimensions, offset, tex_repr, prefixable)
 
     def remove(self, symbol):
@@ -183,9 +184,8 @@ class UnitRegistry:
                 "in this registry."
             )
 
+        self._forget_derived(symbol)
         del self.lut[symbol]
-        if symbol in self._unit_object_cache:
-            del self._unit_object_cache[symbol]
 
     def modify(self, symbol, base_value):
         """
@@ -216,9 +216,26 @@ class UnitRegistry:
         else:
             new_dimensions = self.lut[symbol][1]
 
+        self._forget_derived(symbol)
         self.lut[symbol] = (float(base_value), new_dimensions) + self.lut[symbol][2:]
-        if symbol in self._unit_object_cache:
-            del self._unit_object_cache[symbol]
+
+    def _forget_derived(self, symbol):
+        """Drop everything memoised from the current entry for *symbol*:
+        cached Unit objects (any cached string may mention the symbol) and the
+        SI-prefixed entries that _lookup_unit_symbol derived from it."""
+        self._unit_object_cache.clear()
+        entry = self.lut.get(symbol)
+        if entry is None or not entry[4]:
+            return
+        for prefix, (value, _) in unit_prefixes.items():
+            derived = self.lut.get(prefix + symbol)
+            if (
+                derived is not None
+                and not derived[4]
+                and derived[0] == entry[0] * value
+                and derived[1] == entry[1]
+            ):
+                del self.lut[prefix + symbol]
 
     def keys(self):
         """
